@@ -23,7 +23,11 @@ RULE = (
     "UserDefined, Meta.set_user_defined_metadata (new entry and overwrite of an entry of another type)} and "
     "paths {direct, reparse of the element, document save->reopen}. One evaluation = one (value, carrier, "
     "path) read-back judged for value, Python type and lexical form of the written attribute. Class = "
-    "(carrier, Python type, boundary tag, path)."
+    "(carrier, Python type, boundary tag, path). Sequences: rows of 2..8 values whose neighbours are often "
+    "Python-equal but differently typed (True/1/1.0/Decimal(1)/'1', False/0/''/None, date/datetime at midnight, "
+    "Decimal('1.50')/1.5) or true repeats, written through Row.set_values (with and without start), "
+    "Table.set_values / set_row_values / set_column_values / append_row / set_row and read back through every "
+    "matching getter, directly and after re-parsing: each position must keep its own value and type."
 )
 SHARDS = {"quick": 16, "thorough": 16}
 TIMEOUT = {"quick": 300, "thorough": 3600}
@@ -376,6 +380,112 @@ def judge_documents(res, values, rng):
                 res.violation(f"value:Meta.user_defined{'-overwrite' if round_ else ''}:{tn}:reopen", {"value": v, "got": got, "why": why, "tag": tag}, {"carrier": "meta", "value": _ser(v), "type": tn})
 
 
+SEQ_WRITERS = ["Row.set_values", "Row.set_values(start)", "Table.set_values", "Table.set_row_values", "Table.set_column_values", "Table.append_row", "Row(values)->set_row"]
+
+# Python-equal values of different types: neighbours must keep their own type
+TWINS = [
+    [True, 1, 1.0, Decimal(1), "1", "true", "True"],
+    [False, 0, 0.0, Decimal(0), "0", "", None, "false"],
+    [dt.date(2024, 1, 2), dt.datetime(2024, 1, 2), "2024-01-02"],
+    [dt.timedelta(0), 0, False, "PT0S"],
+    [Decimal("1.50"), 1.5, "1.5", Decimal("1.5")],
+    [2, 2.0, Decimal("2.00"), "2"],
+]
+
+
+def gen_sequence(rng, values):
+    """A row of 2..8 values where neighbours are often Python-equal but of different types."""
+    seq = []
+    n = rng.randint(2, 8)
+    while len(seq) < n:
+        r = rng.random()
+        if r < 0.55:
+            fam = rng.choice(TWINS)
+            seq += [rng.choice(fam) for _ in range(rng.randint(2, 3))]
+        elif r < 0.75 and seq:
+            seq.append(seq[-1])  # a true repeat: equal value of the same type
+        else:
+            seq.append(rng.choice(values)[0])
+    return seq[:n]
+
+
+def write_sequence(writer, seq):
+    """-> (element, readers) where readers: list of (name, fn(element) -> list of values)"""
+    from odfdo import Row, Table
+
+    n = len(seq)
+    if writer == "Row.set_values":
+        r = Row(n)
+        r.set_values(seq)
+        return r, [("get_values", lambda r: r.get_values()), ("get_value", lambda r: [r.get_value(i) for i in range(n)]), ("cells.value", lambda r: [c.value for c in r.get_cells()])]
+    if writer == "Row.set_values(start)":
+        r = Row(n + 1)
+        r.set_values(seq, start=1)
+        return r, [("get_values", lambda r: r.get_values()[1:]), ("get_value", lambda r: [r.get_value(i + 1) for i in range(n)])]
+    if writer == "Table.set_values":
+        t = Table("t")
+        t.set_values([seq, list(reversed(seq))])
+        return t, [("get_values", lambda t: t.get_values()[0]), ("get_row_values", lambda t: list(reversed(t.get_row_values(1)))), ("get_value", lambda t: [t.get_value((i, 0)) for i in range(n)])]
+    if writer == "Table.set_row_values":
+        t = Table("t", n, 2)
+        t.set_row_values(1, seq)
+        return t, [("get_row_values", lambda t: t.get_row_values(1)), ("get_value", lambda t: [t.get_value((i, 1)) for i in range(n)])]
+    if writer == "Table.set_column_values":
+        t = Table("t", 2, n)
+        t.set_column_values(1, seq)
+        return t, [("get_column_values", lambda t: t.get_column_values(1)), ("get_value", lambda t: [t.get_value((1, i)) for i in range(n)])]
+    if writer == "Table.append_row":
+        t = Table("t")
+        t.append_row(Row(n))
+        r = Row()
+        r.set_values(seq)
+        t.append_row(r)
+        return t, [("get_row_values", lambda t: t.get_row_values(1)), ("get_values", lambda t: t.get_values()[1])]
+    if writer == "Row(values)->set_row":
+        t = Table("t", n, 1)
+        r = Row(n)
+        for i, v in enumerate(seq):
+            r.set_value(i, v)
+        t.set_row(0, r)
+        return t, [("get_row_values", lambda t: t.get_row_values(0)), ("get_cells.value", lambda t: [c.value for c in t.get_row(0).get_cells()])]
+    raise KeyError(writer)
+
+
+def _tname(v):
+    return "None" if v is None else type(v).__name__
+
+
+def judge_sequence(res, writer, seq):
+    from odfdo import Element
+
+    case = {"carrier": "sequence", "writer": writer, "values": [_ser(v) for v in seq]}
+    kinds = tuple(_tname(v) for v in seq)
+    try:
+        el, readers = write_sequence(writer, seq)
+    except Exception as e:
+        res.judge()
+        res.violation(f"store-raised:{type(e).__name__}:{writer}", {"exc": repr(e), "values": seq}, case)
+        return
+    for path in ("direct", "reparse"):
+        target = el if path == "direct" else Element.from_tag(el.serialize(with_ns=True))
+        for rname, fn in readers:
+            res.judge()
+            res.cls(("sequence", writer, rname, path, kinds[:4]), True)
+            try:
+                got = list(fn(target))
+            except Exception as e:
+                res.violation(f"read-raised:{type(e).__name__}:{writer}:{rname}:{path}", {"exc": repr(e), "values": seq}, case)
+                continue
+            if len(got) != len(seq):
+                res.violation(f"sequence-length:{writer}:{rname}:{path}", {"got": got, "values": seq}, case)
+                continue
+            for i, (v, g) in enumerate(zip(seq, got)):
+                ok, why = typed_equal(v, g)
+                if not ok:
+                    res.violation(f"value-in-sequence:{writer}:{rname}:{_tname(v)}:{path}", {"index": i, "value": v, "got": g, "got_type": type(g).__name__, "why": why, "values": seq, "neighbours": seq[max(i - 1, 0) : i + 2]}, case)
+                    break
+
+
 def run(ctx, res):
     K.install()
     rng = ctx.rng("vals")
@@ -389,6 +499,13 @@ def run(ctx, res):
     # documents: every shard saves its own slice (chunks of 40 values)
     for k in range(0, len(mine), 40):
         judge_documents(res, mine[k : k + 40], rng)
+    # values written side by side through the multi-value writers
+    srng = ctx.rng("sequences")
+    for i in range(1500 if ctx.quick else 30000):
+        seq = gen_sequence(srng, values)
+        if not ctx.mine(i):
+            continue
+        judge_sequence(res, SEQ_WRITERS[(i // ctx.nshards) % len(SEQ_WRITERS)], seq)
     res.sample({"value": "datetime(2024,1,2,3,4,5,1,tz=+05:30)", "carrier": "Meta.set_user_defined_metadata", "paths": ["direct", "reopen"]})
     res.sample({"value": "Decimal('1.50')", "carrier": "Cell.value=", "paths": ["direct", "reparse"]})
     res.counters.update({"contract:" + k: v for k, v in K.COUNT.items()})
@@ -400,7 +517,9 @@ def replay(case):
     K.install()
     res = Res()
     v = _deser(case["value"])
-    if case["carrier"] in CELL_CARRIERS + VAR_CARRIERS:
+    if case["carrier"] == "sequence":
+        judge_sequence(res, case["writer"], [_deser(d) for d in case["values"]])
+    elif case["carrier"] in CELL_CARRIERS + VAR_CARRIERS:
         judge_one(res, case["carrier"], v, case["type"], "replay")
     else:
         import random
